@@ -3,4 +3,4 @@ Require Extraction.
 Require Import ExtrOcamlBasic.
 From LLB Require Import Engine.Rules Engine.Crash.
 Extraction "extracted/Model_crash.ml" recover_prefix recover apply_committed empty_db wf_trace wf_history db_inv_b
-  trace_of_build trace_refused after_history trace_iteration_after_commit trace_commit_per_result.
+  trace_of_build trace_refused after_history trace_iteration_after_commit trace_commit_per_result trace_failed_no_iteration.
